@@ -538,3 +538,50 @@ func freshSlice(v ssa.Value, depth int) (bool, string) {
 	}
 	return false, fmt.Sprintf("%T", v)
 }
+
+// ---- R3a.ast: who writes gqlparser AST nodes they did not allocate -------------------------
+
+// astWriteTable: the confirmed sites where an existing AST node (client operation or
+// schema definition) is modified in place.
+var astWriteTable = map[string]tabEntry{
+	"planner.sanitizeSelectionSet/Field.SelectionSet":                   {1, "sanitising phase: helper id/__typename are injected into the client's field in place (this is why the cache key is computed before planning, R10a)"},
+	"planner.sanitizeUnionInlineFragment/InlineFragment.SelectionSet":   {3, "sanitising phase: the fragment's selection is rebuilt in place"},
+	"planner.sanitizeInterfaceInlineFragment/InlineFragment.SelectionSet": {1, "sanitising phase: the fragment's selection is replaced in place"},
+	"introspection.introspectRemoteSchema/Definition.Types":             {2, "start-up: union members are filled into definitions the function created itself earlier in the same call (looked up again from the schema map)"},
+	"introspection.introspectRemoteSchema/Definition.Interfaces":        {1, "start-up: interfaces are filled into definitions the function created itself"},
+	"merger.(ExtendMergerFunc).Merge/Definition.Types":                  {1, "start-up: union members restored from possible types before the merged schema is printed"},
+	"merger.(SanitizeNodeMergerFunc).Merge/Definition.Fields":           {1, "start-up: the node field is removed from the merged Query type"},
+}
+
+func ruleASTWrites(r *Run) {
+	const rule = "R3a.ast"
+	n := 0
+	var fns []*ssa.Function
+	fns = append(fns, r.P.Funcs...)
+	sort.Slice(fns, func(i, j int) bool { return fnName(fns[i]) < fnName(fns[j]) })
+	for _, fn := range fns {
+		for _, ins := range allInstrs(fn) {
+			st, ok := ins.(*ssa.Store)
+			if !ok {
+				continue
+			}
+			fa, ok := st.Addr.(*ssa.FieldAddr)
+			if !ok || fieldOf(fa) == nil || !strings.HasPrefix(namedOf(fa.X.Type()), "github.com/vektah/gqlparser/v2/ast.") {
+				continue
+			}
+			// fresh: the node was allocated (or copied by value) in this function
+			if al, isAl := fa.X.(*ssa.Alloc); isAl && al.Parent() == fn {
+				continue
+			}
+			n++
+			what := shortStruct(namedOf(fa.X.Type())) + "." + fieldOf(fa).Name()
+			key := fnName(fn) + "/" + what
+			if reason, ok := useTable(r, astWriteTable, key); ok {
+				r.Tabled(rule, fnName(fn), "write "+what, r.P.pos(st.Pos()), "astWrite", reason)
+			} else {
+				r.Bad(rule, fnName(fn), "write "+what, r.P.pos(st.Pos()), "an existing AST node is modified in place outside the confirmed sites: nodes of the client's operation are shared (a fragment definition is one node for all its spreads; the operation may be planned again or concurrently), so a later use sees the altered node — take a copy (`n := *node`) and modify that")
+			}
+		}
+	}
+	r.AtLeast(rule, "in-place AST writes", n, 8)
+}
